@@ -173,6 +173,11 @@ fn main() {
     proto::install_panic_hook();
     let mut out = Out::new();
     let mut rng = rng::Rng::new(seed ^ 0x7e75);
+    if args.get(1).map(|s| s.as_str()) == Some("schedtag") {
+        schedtag(&mut out, &mut rng, thorough);
+        finish(out, outp);
+        return;
+    }
     let reps = if thorough { 8 } else { 1 };
     for rep in 0..reps {
         for fam in ["uniform", "lattice", "on_boundary", "coplanar", "pair", "single", "cospherical_lattice"] {
@@ -200,10 +205,54 @@ fn main() {
             }
         }
     }
+    finish(out, outp);
+}
+
+fn finish(out: Out, outp: Option<String>) {
     let text = out.lines.join("\n") + "\n";
     match outp {
         Some(p) => std::fs::File::create(p).unwrap().write_all(text.as_bytes()).unwrap(),
         None => std::io::stdout().write_all(text.as_bytes()).unwrap(),
     }
     eprintln!("FAMILIES {}", out.families.iter().map(|(k, v)| format!("{}={}", k, v)).collect::<Vec<_>>().join(" "));
+}
+
+/// data-dependent integrals under different thread pools (C09 / C14): datum of cell i is 1000 + i.
+/// One record per input: `T <threads> CD k {idx data} FD k {left cell data} FDS k {...}` for every pool size.
+fn schedtag(out: &mut Out, rng: &mut rng::Rng, thorough: bool) {
+    let reps = if thorough { 6 } else { 2 };
+    for _ in 0..reps {
+        for (fam, dim, periodic, n) in [("uniform", 3usize, false, 125usize), ("uniform", 3, true, 61), ("uniform", 2, true, 203), ("lattice", 3, true, 27), ("uniform", 1, false, 97)] {
+            let n = n + rng.below(7) as usize;
+            let inp = gen::make(rng, fam, dim, periodic, n);
+            let mask = if rng.chance(0.4) { Some(gen::make_mask(rng, inp.gens.len())) } else { None };
+            let mut res = String::new();
+            for threads in [1usize, 2, 3, 4, 5, 8, 16] {
+                let (i2, m2) = (inp.clone(), mask.clone());
+                let pool = rayon::ThreadPoolBuilder::new().num_threads(threads).build().expect("pool");
+                let r = pool.install(|| {
+                    guarded(move || {
+                        let vi = VoronoiIntegrator::build(&i2.gens, m2.as_deref(), i2.anchor, i2.width, i2.dimensionality(), i2.periodic);
+                        let data: Vec<u64> = (0..i2.gens.len() as u64).map(|i| 1000 + i).collect();
+                        let mut s = String::new();
+                        let tags = vi.compute_cell_integrals_with_data::<u64, CellTag>(&data);
+                        s.push_str(&format!("CD {}", tags.len()));
+                        for t in &tags {
+                            s.push_str(&format!(" {} {}", t.idx, t.data));
+                        }
+                        for (name, ft) in [("FD", vi.compute_face_integrals_with_data::<u64, FaceTag>(&data)), ("FDS", vi.compute_face_integrals_sym_with_data::<u64, FaceTag>(&data))] {
+                            s.push_str(&format!(" {} {}", name, ft.len()));
+                            for f in &ft {
+                                s.push_str(&format!(" {} {} {}", f.left(), f.integral().cell, f.integral().data));
+                            }
+                        }
+                        s
+                    })
+                    .unwrap_or_else(|e| e)
+                });
+                res.push_str(&format!("T {} {} ", threads, r));
+            }
+            out.rec("schedtag", &inp.family, &format!("{} {}", inp.tokens(), mask_tokens(&mask)), res.trim_end());
+        }
+    }
 }
